@@ -232,6 +232,11 @@ func registerHarnessIntrinsics() {
 	reg("vLogger", func(in *Interp, fr *frame, args []Value) (Value, bool) {
 		return in.ifaceOf(in.newObj("logger")), true
 	})
+	reg("vLoggerAt", func(in *Interp, fr *frame, args []Value) (Value, bool) {
+		o := in.newObj("logger")
+		o.F["debug"] = args[0]
+		return in.ifaceOf(o), true
+	})
 	reg("vCrashed", func(in *Interp, fr *frame, args []Value) (Value, bool) {
 		return Int(len(in.crashes)), true
 	})
